@@ -235,18 +235,20 @@ func (env *historyEnv) targetsAlt(now int64) []target {
 		return target{Family: fam, Asset: altAsset, Opts: opts, Rest: "Manifest.mpd", NowMS: now}
 	}
 	ts := []target{
-		mk("mpd-varying-durations", map[string]string{}),
+		mk("mpd-varying-durations", map[string]string{"mode": "segtimeline_1/"}),
 		mk("mpd-varying-durations-timeline-number", map[string]string{"mode": "segtimelinenr_1/"}),
-		mk("mpd-varying-durations-ato", map[string]string{"ato": "ato_1/"}),
+		mk("mpd-varying-durations-ato", map[string]string{"mode": "segtimeline_1/", "ato": "ato_1/"}),
 	}
 	for _, back := range []int64{3000, 9000} {
-		old := mk("x", map[string]string{"patch": "patch_60/"})
-		old.NowMS = now - back
-		if o := lib.ObserveMPD(env.prep.Get(old.url())); o != nil && o.PatchLocation != "" {
-			if i := strings.Index(o.PatchLocation, "?"); i >= 0 {
-				t := mk("patch-varying-durations", map[string]string{"patch": "patch_60/"})
-				t.Rest, t.Patch, t.Query = "Manifest.mpp", true, strings.ReplaceAll(o.PatchLocation[i+1:], "&amp;", "&")
-				ts = append(ts, t)
+		for _, mode := range []string{"segtimeline_1/", "segtimelinenr_1/"} {
+			old := mk("x", map[string]string{"patch": "patch_60/", "mode": mode})
+			old.NowMS = now - back
+			if o := lib.ObserveMPD(env.prep.Get(old.url())); o != nil && o.PatchLocation != "" {
+				if i := strings.Index(o.PatchLocation, "?"); i >= 0 {
+					t := mk("patch-varying-durations", map[string]string{"patch": "patch_60/", "mode": mode})
+					t.Rest, t.Patch, t.Query = "Manifest.mpp", true, strings.ReplaceAll(o.PatchLocation[i+1:], "&amp;", "&")
+					ts = append(ts, t)
+				}
 			}
 		}
 	}
